@@ -14,12 +14,17 @@ RULE = ('case = 1-4 rule ASTs (C01 generator, derived rules share patterns / pre
         'whole and changes nothing): expected handler = first registered of [M, GET if M == HEAD, ANY]; otherwise 405 whose Allow header parsed as a '
         'comma-separated list is duplicate-free and equals the registered set; 404 iff the reference matcher finds no route (never 405 without a route, never '
         '404 with one). Observed on Ombott.to_route / RadiRouter.resolve and on the status line, Allow header and handler actually run through Ombott.__call__ (requests with and without an Accept header asking for a JSON error document). '
-        'Route hooks (per-prefix 404 handlers via error(404, rule=prefix), on_route hooks) may be installed on prefixes of the rules at any step: a 405 stays a 405 with Allow and never runs a prefix 404 handler. Plus: an overwrite=True registration on one thread against a request on another under every single-preemption schedule (answer must come from the old or the new handler). Non-trivial = the request exercises a fallback (HEAD->GET, ->ANY), a 405, a case-folded method name, or a route whose table was overwritten / reduced; '
+        'Route hooks (per-prefix 404 handlers via error(404, rule=prefix), on_route hooks) may be installed on prefixes of the rules at any step: a 405 stays a 405 with Allow and never runs a prefix 404 handler. Plus: an overwrite=True registration on one thread against a request on another under every single-preemption schedule (answer must come from the old or the new handler). A before_request verb-override hook rewrites the verb in one of three styles (blind write to request.environ | request.method read first, then request.environ written | request[...] assignment), and a request may be followed by a second dispatch of the SAME environ dict with another verb written into it: the REQUEST_METHOD the environ carries at routing time decides. Verbs are also attached / overwritten / removed through the Route object (Route.add_method / set_method / remove_method) with names spelled upper, lower or mixed case as given: upper-case names follow the dict model; for other spellings it is observed whether the verb is taken over, but a verb that has a handler keeps it unless overwrite / removal was asked for, a refused call changes nothing, verbs not named are untouched (Allow may then list the name as given). Non-trivial = the request exercises a fallback (HEAD->GET, ->ANY), a 405, a case-folded method name, or a route whose table was overwritten / reduced; '
         'distinct by case hash + request.')
 ASSUMPTIONS = ['route selection itself is C01; here paths are exact instantiations or clear misses, empty-binding verdicts are skipped',
                'a route whose methods were all removed still exists (405 with an empty Allow), as the property says 404 is for paths that match no route']
 
 VERBS = ['GET', 'POST', 'PUT', 'DELETE', 'HEAD', 'PATCH', 'OPTIONS', 'ANY', 'FOO', 'M-SEARCH', 'VERSION-CONTROL', 'X.PING', 'SEARCH', 'GET2', "A!B"]
+
+
+# the X-HTTP-Method-Override hook: writes environ['REQUEST_METHOD'] without looking | reads request.method first (`if request.method == 'POST'`)
+# and then writes the environ dict | assigns through request['REQUEST_METHOD']
+OV_STYLES = ['blind', 'read_first', 'setitem']
 
 
 def spell(m, k):
@@ -37,12 +42,15 @@ def case_st(draw):
     def req():
         return {'req': True, 'method': spell(draw(st.sampled_from(VERBS + ['HEAD', 'GET', 'TRACE'])), draw(st.sampled_from([0, 0, 0, 1, 2]))),
                 'path': draw(R.path_for(draw(st.sampled_from(asts)))), 'accept': draw(st.sampled_from([None, None, 'application/json', 'text/html', 'application/json, text/html;q=0.5'])),
-                'override': draw(st.sampled_from([None, None, None, None, 'PUT', 'DELETE', 'PATCH', 'GET', 'HEAD', 'FOO']))}
+                'override': draw(st.sampled_from([None, None, None, None, 'PUT', 'DELETE', 'PATCH', 'GET', 'HEAD', 'FOO'])),
+                # how the override hook changes the verb (see OV_STYLES), and a verb the SAME environ dict is dispatched with a second time
+                'ov_style': draw(st.sampled_from(OV_STYLES)),
+                'again': draw(st.sampled_from([None, None, None, 'GET', 'DELETE', 'PUT', 'post', 'HEAD', 'FOO']))}
     for _ in range(draw(st.integers(1, 10))):
-        op = draw(st.sampled_from(['add', 'add', 'add', 'add_over', 'remove_method', 'rm_remove']))
+        op = draw(st.sampled_from(['add', 'add', 'add', 'add_over', 'remove_method', 'rm_remove', 'route_add', 'route_set']))
         ms = draw(st.lists(st.sampled_from(VERBS), min_size=0 if draw(st.integers(0, 19)) == 0 else 1, max_size=3, unique=True))
         events.append({'op': op, 'rule': draw(st.integers(0, len(asts) - 1)), 'methods': [spell(m, draw(st.integers(0, 7))) for m in ms],
-                       'as_str': draw(st.booleans()), 'via_app': draw(st.booleans())})
+                       'as_str': draw(st.booleans()), 'via_app': draw(st.booleans()), 'raw': draw(st.sampled_from([False, False, True]))})
         # requests are interleaved with the edits: an answer may not depend on what was answered before an edit
         for _ in range(draw(st.sampled_from([0, 0, 1, 2]))):
             events.append(req())
@@ -67,9 +75,16 @@ def check_case(ctx, case):
 
     def override_hook():
         # the X-HTTP-Method-Override recipe: a before_request hook rewrites the verb (hooks run before routing)
-        ov = app.request.environ.get('HTTP_X_HTTP_METHOD_OVERRIDE')
+        rq = app.request
+        style = box.get('ov_style')
+        if style == 'read_first' and rq.method != 'POST':        # the classic idiom: the verb is looked at before it is rewritten
+            return
+        ov = rq.environ.get('HTTP_X_HTTP_METHOD_OVERRIDE')
         if ov:
-            app.request.environ['REQUEST_METHOD'] = ov
+            if style == 'setitem':
+                rq['REQUEST_METHOD'] = ov
+            else:
+                rq.environ['REQUEST_METHOD'] = ov
     app.add_hook('before_request', override_hook)
 
     def handler_for(tag):
@@ -148,7 +163,9 @@ def check_case(ctx, case):
             route = router[{text}]
             if route is None:
                 raise CheckFailure(f'step {si}: router[{{{text!r}}}] is None although the rule was registered')
-            if stp['op'] == 'remove_method':
+            if stp['op'] in ('route_add', 'route_set') or (stp['op'] == 'remove_method' and stp.get('raw')):
+                _route_object_edit(ctx, si, stp, text, route, ent, up, tagno, handler_for)
+            elif stp['op'] == 'remove_method':
                 route.remove_method(up[0] if (stp['as_str'] and len(up) == 1) else up)
                 for m in up:
                     ent['methods'].pop(m, None)
@@ -159,6 +176,79 @@ def check_case(ctx, case):
                         rm.remove()
                     ent['methods'].pop(m, None)
             ent['edited'] = True
+
+
+def _route_object_edit(ctx, si, stp, text, route, ent, up, tagno, handler_for):
+    """Route.add_method / set_method / remove_method called on the Route object with the verb names spelled AS GIVEN (upper, lower, mixed).
+    For upper-case names the dict model applies as it is. Whether the Route layer folds other spellings is not fixed by the property, so for
+    those the effect on the verb is observed (taken over or not) -- but which handler may answer a verb is decided by successful
+    registrations only: a verb that has a handler keeps it unless the call is an overwrite (set_method) or a removal, a refused call
+    changes nothing, and verbs not named in the call are never touched."""
+    from ombott.router.errors import RouteMethodError
+
+    def served(v):
+        try:
+            return route[[v]].handler()
+        except RouteMethodError:
+            return None
+    given = list(stp['methods'])
+    arg = given[0] if (stp['as_str'] and len(given) == 1) else given
+    canonical = all(g == g.upper() for g in given)
+    before = dict(ent['methods'])
+    watch = sorted(set(before) | set(up))
+    for v in watch:
+        if served(v) != before.get(v):
+            raise CheckFailure(f'step {si}: route {text!r} with {before}: Route[[{v!r}]] gives {served(v)} before the edit')
+    op = stp['op']
+    tag = None
+    if op != 'remove_method':
+        tagno[0] += 1
+        tag = 't%d' % tagno[0]
+    try:
+        if op == 'route_add':
+            route.add_method(arg, handler_for(tag))
+        elif op == 'route_set':
+            route.set_method(arg, handler_for(tag))
+        else:
+            route.remove_method(arg)
+        accepted = True
+    except RouteMethodError:
+        accepted = False
+    what = f'step {si}: Route.{ {"route_add": "add_method", "route_set": "set_method"}.get(op, op)}({arg!r}) on {text!r} with {before}'
+    after = {v: served(v) for v in watch}
+    ctx.count('route_object_edit_' + op + ('_upper_case_names' if canonical else '_other_spelling'))
+    if not accepted:
+        if op != 'route_add':
+            raise CheckFailure(f'{what} raised RouteMethodError')
+        if canonical and not (set(up) & set(before)):
+            raise CheckFailure(f'{what} was refused although none of the verbs is taken')
+        for v in watch:
+            if after[v] != before.get(v):
+                raise CheckFailure(f'{what} was refused, but {v} is answered by {after[v]} afterwards (before: {before.get(v)})')
+        return
+    if op == 'route_add' and canonical and set(up) & set(before):
+        raise CheckFailure(f'{what} was accepted although {sorted(set(up) & set(before))} are taken (no overwrite asked for)')
+    for v in watch:
+        old = before.get(v)
+        if v not in up:
+            allowed = [old]
+        elif op == 'route_add':
+            allowed = [old] if old is not None else ([tag] if canonical else [tag, None])
+        elif op == 'route_set':
+            allowed = [tag] if canonical else [tag, old]
+        else:
+            allowed = [None] if canonical else [None, old]
+        if after[v] not in allowed:
+            raise CheckFailure(f'{what} ({"accepted" if op != "remove_method" else "done"}): afterwards {v} is answered by {after[v]}, '
+                               f'before by {old}; allowed {allowed}' + (' (the verb had a handler and no overwrite was asked for)' if op == 'route_add' and old is not None else ''))
+        if after[v] is None:
+            ent['methods'].pop(v, None)
+        else:
+            ent['methods'][v] = after[v]
+        if v in up and old is not None and op == 'route_add':
+            ctx.count('route_object_add_of_a_taken_verb_in_another_spelling')
+    if not canonical:
+        ent.setdefault('phantom', set()).update(g.upper() for g in given if g != g.upper())
 
 
 def _request(ctx, case, app, box, model, order, texts, rq, edits_seen):
@@ -179,14 +269,16 @@ def _request(ctx, case, app, box, model, order, texts, rq, edits_seen):
         if not agreed or (strict is None) != (lenient is None):
             ctx.exclude('unspecified_empty')
             continue
-        M = method.upper()
-        cands = [M] + (['GET'] if M == 'HEAD' else []) + ['ANY']
-        if strict is None:
-            want = ('404', None)
-        else:
-            ent = model[R.pattern_key(order[strict[0]])]
+        ent = model[R.pattern_key(order[strict[0]])] if strict is not None else None
+
+        def want_for(M):
+            cands = [M] + (['GET'] if M == 'HEAD' else []) + ['ANY']
+            if ent is None:
+                return ('404', None), cands
             hit = next((c for c in cands if c in ent['methods']), None)
-            want = ('200', ent['methods'][hit]) if hit else ('405', set(ent['methods']))
+            return (('200', ent['methods'][hit]) if hit else ('405', set(ent['methods']))), cands
+        M = method.upper()
+        want, cands = want_for(M)
         # ---- (a) Ombott.to_route (upper-cased verb, as request.method delivers it)
         end_point, err = app.to_route(path, M)
         if want[0] == '404':
@@ -197,34 +289,63 @@ def _request(ctx, case, app, box, model, order, texts, rq, edits_seen):
             ok = end_point is not None and end_point[0].handler() == want[1]
         if not ok:
             raise CheckFailure(f'routes {desc}: {M} {path!r}: to_route gave {"handler " + str(end_point[0].handler()) if end_point else "error " + str(err[0])}, expected {want}')
+
+        def judge(r, method, want, cands, how=''):
+            M = method.upper()
+            if r.escaped is not None:
+                raise CheckFailure(f'{method} {path!r}{how}: exception escaped {fmt_exc(r.escaped)}')
+            if want[0] == '404':
+                if r.code != 404:
+                    raise CheckFailure(f'routes {desc}: {method} {path!r}{how} matches no route, answered {r.status!r}')
+            elif want[0] == '405':
+                if r.code != 405 or box.get('hook'):
+                    raise CheckFailure(f'routes {desc}: {method} {path!r}{how}: no handler among {cands}, expected 405, answered {r.status!r} (handler run: {box.get("ran")}, '
+                                       f'prefix 404 hook run: {box.get("hook")})')
+                allow = r.header_all('Allow')
+                if len(allow) != 1:
+                    raise CheckFailure(f'routes {desc}: 405 for {method} {path!r}{how} carries {len(allow)} Allow headers: {allow}')
+                items = [x.strip() for x in allow[0].split(',') if x.strip()]
+                if ent.get('phantom'):
+                    # names given to the Route object in a non-upper-case spelling may be listed as given (whether that layer folds case is
+                    # not fixed by the property): every registered verb is listed, and nothing beyond those names
+                    folded = {x.upper() for x in items}
+                    if not (want[1] <= folded <= want[1] | ent['phantom']):
+                        raise CheckFailure(f'routes {desc}: 405 for {method} {path!r}{how}: Allow {allow[0]!r}, registered methods {sorted(want[1])} '
+                                           f'(+ possibly {sorted(ent["phantom"])} given to the Route object in another spelling)')
+                elif len(set(items)) != len(items) or set(items) != want[1]:
+                    raise CheckFailure(f'routes {desc}: 405 for {method} {path!r}{how}: Allow {allow[0]!r}, registered methods {sorted(want[1])}')
+            else:
+                if r.code != 200 or box.get('ran') != want[1]:
+                    raise CheckFailure(f'routes {desc}: {method} {path!r}{how} must run handler {want[1]} (candidates {cands}); status {r.status!r}, handler run: {box.get("ran")}; {r.errors[-300:]}')
+                if M != 'HEAD' and r.body != want[1].encode():
+                    raise CheckFailure(f'routes {desc}: {method} {path!r}{how}: body {r.body!r}, expected {want[1]!r}')
         # ---- (b) through WSGI
         box.clear()
+        style = rq.get('ov_style') or 'blind'
+        box['ov_style'] = style
         hdrs = {'Accept': rq['accept']} if rq.get('accept') else {}
         if rq.get('override'):
             hdrs['X-HTTP-Method-Override'] = rq['override']
-        r = call_app(app, make_environ(sent_as, path, headers=hdrs or None))      # (the client may ask for a JSON error document)
-        if r.escaped is not None:
-            raise CheckFailure(f'{method} {path!r}: exception escaped {fmt_exc(r.escaped)}')
+            ctx.count('verb_override_hook_style_' + style)
+        env = make_environ(sent_as, path, headers=hdrs or None)
+        wsgi_path = env['PATH_INFO']
+        r = call_app(app, env)      # (the client may ask for a JSON error document)
         if rq.get('accept'):
             ctx.count('request_with_accept_header')
-        if want[0] == '404':
-            if r.code != 404:
-                raise CheckFailure(f'routes {desc}: {method} {path!r} matches no route, answered {r.status!r}')
-        elif want[0] == '405':
-            if r.code != 405 or box.get('hook'):
-                raise CheckFailure(f'routes {desc}: {method} {path!r}: no handler among {cands}, expected 405, answered {r.status!r} (handler run: {box.get("ran")}, '
-                                   f'prefix 404 hook run: {box.get("hook")})')
-            allow = r.header_all('Allow')
-            if len(allow) != 1:
-                raise CheckFailure(f'routes {desc}: 405 for {method} {path!r} carries {len(allow)} Allow headers: {allow}')
-            items = [x.strip() for x in allow[0].split(',') if x.strip()]
-            if len(set(items)) != len(items) or set(items) != want[1]:
-                raise CheckFailure(f'routes {desc}: 405 for {method} {path!r}: Allow {allow[0]!r}, registered methods {sorted(want[1])}')
-        else:
-            if r.code != 200 or box.get('ran') != want[1]:
-                raise CheckFailure(f'routes {desc}: {method} {path!r} must run handler {want[1]} (candidates {cands}); status {r.status!r}, handler run: {box.get("ran")}; {r.errors[-300:]}')
-            if M != 'HEAD' and r.body != want[1].encode():
-                raise CheckFailure(f'routes {desc}: {method} {path!r}: body {r.body!r}, expected {want[1]!r}')
+        judge(r, method, want, cands, f' (sent as {sent_as}, override hook style {style})' if rq.get('override') else '')
+        if rq.get('again'):
+            # the SAME environ dict is dispatched a second time with another verb written into it (internal re-dispatch / forward):
+            # the verb that counts is the REQUEST_METHOD the environ carries now
+            env['REQUEST_METHOD'] = rq['again']
+            env['PATH_INFO'] = wsgi_path            # (the application re-codes PATH_INFO in place; the forwarder hands over a proper WSGI path again)
+            env.pop('HTTP_X_HTTP_METHOD_OVERRIDE', None)
+            box.clear()
+            box['ov_style'] = style
+            want2, cands2 = want_for(rq['again'].upper())
+            judge(call_app(app, env), rq['again'], want2, cands2, f' (same environ dispatched again, before as {sent_as}{"->" + method if rq.get("override") else ""})')
+            ctx.count('same_environ_dispatched_again_with_another_verb')
+            if rq['again'].upper() != M:
+                ctx.nontrivial(repr((desc, method, path, 'again', rq['again'])))
         # ---- classification
         nt = False
         if want[0] == '200':
@@ -288,6 +409,29 @@ def run(ctx):
             reqs = [{'req': True, 'method': 'POST', 'path': p, 'override': ov} for ov in (None, 'PUT', 'DELETE', 'GET', 'HEAD', 'PATCH', 'delete') for p in ('/r/1', '/nope')]
             ctx.guarded(check_case, {'asts': [[['lit', '/r/'], ['w', 'x', None, None]]], 'choice': [], 'spell': 0, 'events': steps + reqs})
         ctx.count('verb_override_grid')
+        # the override hook in each of its three styles (blind write to the environ dict | request.method read first, then the environ dict written |
+        # request[...] assignment) x override verbs in both spellings, and every request followed by a second dispatch of the SAME environ dict with another verb
+        for sub in (['GET', 'PUT'], ['POST', 'ANY'], ['GET', 'POST', 'DELETE']):
+            steps = [{'op': 'add', 'rule': 0, 'methods': [m], 'as_str': True} for m in sub]
+            reqs = [{'req': True, 'method': 'POST', 'path': p, 'override': ov, 'ov_style': style, 'again': again}
+                    for style in OV_STYLES for ov in ('PUT', 'put', 'DELETE', 'GET', 'HEAD') for p in ('/r/1', '/nope') for again in (None, 'DELETE', 'GET')]
+            reqs += [{'req': True, 'method': v, 'path': '/r/1', 'ov_style': style, 'again': again}
+                     for style in OV_STYLES for v in ('GET', 'POST', 'HEAD', 'PATCH') for again in ('DELETE', 'PUT', 'get', 'HEAD', 'POST')]
+            ctx.guarded(check_case, {'asts': [[['lit', '/r/'], ['w', 'x', None, None]]], 'choice': [], 'spell': 0, 'events': steps + reqs})
+        ctx.count('override_style_and_redispatch_grid')
+        # verbs attached / overwritten / removed through the Route object in upper, lower and mixed spelling, each against a table in which the verb is
+        # taken, free, or only covered by ANY; the full request set follows every edit
+        reqs = [{'req': True, 'method': v, 'path': p} for v in ['GET', 'HEAD', 'POST', 'PUT', 'DELETE', 'get'] for p in ['/r/1', '/nope']]
+        for sub in (['GET', 'PUT'], ['GET'], ['ANY', 'POST'], ['HEAD', 'GET', 'POST']):
+            for op in ('route_add', 'route_set', 'remove_method'):
+                for names in (['GET'], ['get'], ['Get'], ['post', 'put'], ['POST', 'put'], ['delete'], ['head'], ['any']):
+                    for as_str in ((True, False) if len(names) == 1 else (False,)):
+                        steps = [{'op': 'add', 'rule': 0, 'methods': list(sub), 'as_str': False}]
+                        edit = {'op': op, 'rule': 0, 'methods': list(names), 'as_str': as_str, 'raw': True}
+                        # ... and afterwards the ordinary API in canonical spelling on top of whatever the Route edit left
+                        tail = [{'op': 'add', 'rule': 0, 'methods': [n.upper() for n in names], 'as_str': False, 'via_app': True}] + reqs
+                        ctx.guarded(check_case, {'asts': [[['lit', '/r/'], ['w', 'x', None, None]]], 'choice': [], 'spell': 0, 'events': steps + reqs + [edit] + reqs + tail})
+        ctx.count('route_object_spelling_grid')
         for reg, rm, req in ((['GET', 'ANY'], ['GET'], 'GET'), (['GET'], ['GET'], 'GET'), (['GET', 'POST'], ['POST'], 'POST'), (['HEAD', 'GET'], ['HEAD'], 'HEAD'), (['ANY'], ['ANY'], 'PUT')):
             ctx.guarded(check_concurrent_overwrite, {'registered': reg, 'overwrite': rm, 'request': req, 'remove': True})
         for reg, over, req in ((['GET'], ['GET'], 'GET'), (['GET', 'POST'], ['POST'], 'POST'), (['GET', 'ANY'], ['GET'], 'GET'), (['GET'], ['GET', 'PUT'], 'HEAD'),
